@@ -36,7 +36,10 @@ tok   = ["S",name,{attr:value}] | ["E",name] | ["T",text] | ["ALT",[[tok]...]]
 import re
 from xml.sax.saxutils import escape as xesc, quoteattr
 
-ELEMS = ['div', 'p', 'span', 'b', 'i', 'em', 'ul', 'li', 'a', 'td', 'h1', 'section', 'q', 'u']
+ELEMS = ['div', 'p', 'span', 'b', 'i', 'em', 'ul', 'li', 'a', 'td', 'h1', 'section', 'q', 'u', 'pre', 'textarea']
+# elements the template author writes inside Markup literals: the whitespace filter does not see them as
+# elements, so no whitespace-preserving ones there
+MARKUP_ELEMS = [e for e in ELEMS if e not in ('pre', 'textarea')]
 VOID = ['br', 'hr', 'img']
 ATTRS = ['title', 'class', 'href', 'id', 'alt', 'data-x', 'lang', 'name', 'value', 'style', 'onclick']
 KWATTRS = {'title': 'title', 'class_': 'class', 'href': 'href', 'id': 'id', 'data_x': 'data-x', 'alt': 'alt'}
@@ -499,7 +502,7 @@ def first_choice(toks):
     return out
 
 
-def match_alts(toks, got, strip):
+def match_alts(toks, got, strip, method=None):
     """is there a resolution of the ALT tokens under which coalesce(toks, strip) == got?
     Depth-first with pruning: everything before the last text run of the resolved prefix must
     already agree with `got` (so the search is linear unless alternatives really are ambiguous)."""
@@ -510,7 +513,7 @@ def match_alts(toks, got, strip):
         return list(ts)
 
     def consistent(prefix):
-        c = coalesce(prefix, strip)
+        c = coalesce(prefix, strip, method)
         if c and c[-1][0] == 'T':
             c = c[:-1]
         return c == got[:len(c)]
@@ -525,7 +528,7 @@ def match_alts(toks, got, strip):
             acc.append(rest[i])
             i += 1
         if i == len(rest):
-            return coalesce(acc, strip) == got
+            return coalesce(acc, strip, method) == got
         if not consistent(acc):
             return False
         for alt in rest[i][1]:
@@ -535,8 +538,12 @@ def match_alts(toks, got, strip):
     return go(flat(toks), [])
 
 
-def coalesce(toks, strip=False):
-    """merge adjacent text, drop empty text; with strip, each run as strip_whitespace documents it"""
+PRESERVE = {'xml': frozenset(), 'xhtml': frozenset(['pre', 'textarea']), 'html': frozenset(['pre', 'textarea'])}
+
+
+def coalesce(toks, strip=False, method=None):
+    """merge adjacent text, drop empty text; with strip, each run as strip_whitespace documents it:
+    normalised unless it lies inside a whitespace-preserving element of the method"""
     out = []
     for t in toks:
         if t[0] == 'T':
@@ -546,13 +553,19 @@ def coalesce(toks, strip=False):
                 out.append(['T', t[1]])
         else:
             out.append(t)
+    pres = PRESERVE.get(method, frozenset())
+    depth = 0
     res = []
     for t in out:
         if t[0] == 'T':
-            s = normws(t[1]) if strip else t[1]
+            s = normws(t[1]) if (strip and depth == 0) else t[1]
             if s:
                 res.append(['T', s])
         else:
+            if t[0] == 'S' and (depth > 0 or t[1] in pres):
+                depth += 1
+            elif t[0] == 'E' and depth > 0:
+                depth -= 1
             res.append(t)
     return res
 
@@ -797,7 +810,7 @@ class Gen(object):
         while hole[0] < nholes:
             r = rng.random()
             if r < 0.5:
-                name = rng.choice(ELEMS)
+                name = rng.choice(MARKUP_ELEMS)
                 attrs = []
                 if rng.random() < 0.5:
                     an = rng.choice(ATTRS)
@@ -1149,7 +1162,7 @@ def validate(case):
         holes = []
         for p in ps:
             if p[0] == 'S':
-                _req(p[1] in ELEMS, 'piece elem')
+                _req(p[1] in MARKUP_ELEMS, 'piece elem')
                 for an, av in p[2]:
                     _req(an in ATTRS, 'piece attr')
                     if av[0] == 'hole':
@@ -1157,7 +1170,7 @@ def validate(case):
                     else:
                         _req(av[0] == 'lit' and isinstance(av[1], str), 'piece attr lit')
             elif p[0] == 'E':
-                _req(p[1] in ELEMS, 'piece elem')
+                _req(p[1] in MARKUP_ELEMS, 'piece elem')
             elif p[0] == 'T':
                 _req(isinstance(p[1], str), 'piece text')
             elif p[0] == 'H':
